@@ -31,10 +31,10 @@ S1 == Scn(9001, Sig("i32", <<"i32", "f64">>, 255), <<Callee("i32", <<"i64", "f64
           <<"i32", "f64", "i64", "i32">>,
           <<Arg(1, 1), Arg(2, 2), Imm(3, <<1, 2, 3, 4>>), Inv(1, <<V(3), V(2), V(1), I(<<77, 0, 0, 0>>)>>, 4), Store(3), Store(2), Add(4, 1)>>,
           4, 4, 4, <<<<10, 0, 48879, 57005>>, D64(5)>>)
-S2 == Scn(9002, Sig("void", <<>>, 255), <<Callee("i64", <<"i32", "i32", "i32", "i32", "i32", "i32", "i32", "i32">>, 255, "reg", 5)>>,
+S2 == Scn(9002, Sig("void", <<>>, 255), <<Callee("i64", <<"i32", "i32", "i32", "i32", "i32", "i32", "i32", "i32", "i32">>, 255, "reg", 5)>>,
           <<"i32", "i32", "i32", "i64">>,
           <<Imm(1, <<11, 0>>), Imm(2, <<22, 1>>), Imm(3, <<33, 2>>),
-            Inv(1, <<V(1), I(<<65535, 65535, 65535, 65535>>), V(2), V(1), I(<<9, 0, 1, 0>>), V(2), V(3), V(1)>>, 4), Store(4), Store(3)>>,
+            Inv(1, <<V(1), I(<<65535, 65535, 65535, 65535>>), V(2), V(1), I(<<9, 0, 1, 0>>), V(2), V(3), V(1), V(3)>>, 4), Store(4), Store(3)>>,
           0, 4, 10, <<>>)
 S3 == Scn(9003, Sig("f64", <<"f64">>, 255), <<Callee("i32", <<"i32", "f64", "f64">>, 1, "imm", 7)>>,
           <<"f64", "i32", "i32">>,
